@@ -14,7 +14,7 @@ def G(s, g):
 SLICES = TXSLICES + [G(CHECKTX, "TU_C03")] + T.CONSTS + \
     [{"name": "OP_RETURN", "kind": "const", "file": "src/script/script.h", "pat": r"OP_RETURN\s*=\s*(0x[0-9a-fA-F]+),", "emit": r"#define OP_RETURN \1"},
      {"name": "MAX_SCRIPT_SIZE", "kind": "const", "file": "src/script/script.h", "pat": r"inline constexpr int MAX_SCRIPT_SIZE\{([\d']+)\};", "emit": r"static const int MAX_SCRIPT_SIZE = \1;"}] + \
-    [G(s, "TU_TXV") for s in (T.HAVEINPUTS, T.CHECKTXINPUTS, T.FRAG_ADDCOIN, T.ISUNSPENDABLE)]
+    [G(s, "TU_TXV") for s in T.FUNCS + [T.FRAG_ADDCOIN, T.ISUNSPENDABLE]]
 REASONS = sorted(set(R03 + ["bad-txns-inputs-missingorspent", "bad-txns-premature-spend-of-coinbase", "bad-txns-inputvalues-outofrange", "bad-txns-in-belowout", "bad-txns-fee-outofrange",
            "bad-txns-nonfinal", "bad-txns-accumulated-fee-outofrange", "bad-cb-amount"]))
 PLAN = {
@@ -30,6 +30,7 @@ PLAN = {
         H("h_AddCoin_head", "AddCoin_head"),
         H("h_IsUnspendable", "CScript_IsUnspendable", ["TWIN_UNSPENDABLE"]),
     ],
+    "native": T.NATIVE,
     "not_covered": ["marking a coin spent (CCoinsViewCache::SpendCoin), same-block ordering (outputs created later in the block), BIP30 and cross-block histories, 'rejected blocks leave the set unchanged': "
                     "these live in CCoinsViewCache / ConnectBlock state manipulation (unordered_map iterators, flags list) outside the extractor's subset",
                     "the rest of AddCoin after its early return"],
